@@ -71,7 +71,8 @@ def generate(family, rng, tier, force=None):
         # fixed locations include the upper half of the CSR address space (only reachable when every hop keeps the full address width)
         periphs.append({"name": "per%d" % k, "regs": regs, "loc": rng.choice([None, None, 5 + k, 9 + k, n_locs // 2 + 1 + k, n_locs - 1 - k])})
         # interrupt of the peripheral (a level event source behind an EventManager): none, automatic or a fixed number
-        periphs[-1]["mem_depth"] = rng.choice([None, None, 4, 16])        # a memory mapped into the CSR space (its own window)
+        # a memory mapped into the CSR space (its own window): small, not a power of two, half a CSR page, exactly one CSR page
+        periphs[-1]["mem_depth"] = rng.choice([None, None, 4, 16, 12, p["csr_paging"] // 8, p["csr_paging"] // 4])
         periphs[-1]["irq"] = rng.choice([None, "auto", "auto", [0, 7, 31][k % 3], 12 + k]) if p["with_irq"] else None
     if p["with_irq"] and not any(x["irq"] is not None for x in periphs):
         periphs[0]["irq"] = "auto"      # (a CPU with interrupts and no interrupt source at all makes SoC.finalize() raise: not generated)
@@ -333,7 +334,8 @@ def _run(scn, d):
                 V("export_mismatch", key, "CSR memory %s: csr.json csr_bases says %s, csr.h says %s" % (key, js.get("csr_bases", {}).get(key), mm.group(1) if mm else None))
                 continue
             base = js["csr_bases"][key]
-            for off, tag in ((0, 0x33330000), (4 * (spec["mem_depth"] - 1), 0x44440000)):
+            dpt = spec["mem_depth"]
+            for off, tag in sorted({0: 0x33330000, 4 * (dpt // 2 - 1): 0x55550000, 4 * (dpt // 2): 0x66660000, 4 * (dpt - 1): 0x44440000}.items()):
                 v_ = tag | (len(ops) & 0xffff)
                 ops.append({"we": 1, "adr": (base + off) >> 2, "dat": v_, "sel": 15, "gap": 2, "keep_cyc": 0})
                 tests.append(("csrmem_w", key, v_, len(ops) - 1, len(ops) - 1))
